@@ -339,3 +339,42 @@ TASKS_NATIVES = {CM + "collapse_candles": _phase(0, "collapse_candles"), CM + "c
                  CM + "trim_candles": _phase(2, "trim_candles")}
 HEX_TASKS[CM + "_tasks"] = dict(builder=tasks_builder, natives=TASKS_NATIVES, contract=Contract(
     CM + "_tasks", ensures={"all-three-steps-ran": "self.phase == 3"}, result_type="None", props=["C11", "C15", "C01", "C03"], use_at_calls=False))
+
+
+# ---- C08: a member with its own timeframe gets a manager with the Hexital's effective configuration
+def validate_builder(ex, st):
+    import z3
+    from hexvc.objects import instantiate
+    from hexvc.state import DictP, ListP, ObjP
+    from hexvc.timevals import TimeDeltaV
+    from hexvc.values import SBool, SInt
+    src = ex.ctx.source
+    hcls = src.module("hexital.core.hexital").classes["Hexital"]
+    mcls = src.module("hexital.core.candle_manager").classes["CandleManager"]
+    icls = src.module("hexital.indicators.ema").classes["EMA"]
+    for c in (hcls, mcls, icls):
+        src.resolve_class_bases(c)
+    fill = SBool(z3.Bool("hex_fill"))
+    life = TimeDeltaV(z3.Int("hex_life"))
+    m0 = st.alloc(ObjP(mcls, {"candles": st.alloc(ListP([])), "timeframe": None, "timeframe_fill": fill, "candles_lifespan": life, "candlestick_type": None}))
+    h = st.alloc(ObjP(hcls, {"name": "hex", "timeframe": None, "timeframe_fill": fill, "candles_lifespan": life, "candlestick_type": None,
+                             "_candles": st.alloc(DictP({"default": m0})), "_indicators": st.alloc(DictP({}))}))
+    outs = list(instantiate(ex, icls, [], {"timeframe": "T5", "period": SInt(z3.Int("period")), "timeframe_fill": SBool(z3.Bool("member_fill"))}, st, None))
+    st1, ind = outs[0]
+    plain = list(instantiate(ex, icls, [], {"period": SInt(z3.Int("period2")), "fullname_override": "plain"}, st1, None))
+    st2, ind2 = plain[0]
+    lst = st2.alloc(ListP([ind, ind2]))
+    yield st2, [h, lst], {}, {"self": h, "indicators": lst, "ind": ind, "ind2": ind2, "hex_fill": fill, "hex_life": life, "m0": m0}
+
+
+VALIDATE = Contract(
+    H + "_validate_indicators",
+    ensures={
+        "member-timeframe-gets-its-own-manager": "self._candles['T5'].timeframe == 'T5' and ind._candles is self._candles['T5']",
+        "that-manager-has-the-hexital-configuration": "self._candles['T5'].timeframe_fill == hex_fill and self._candles['T5'].candles_lifespan == hex_life"
+                                                      " and self._candles['T5'].candlestick_type is None",
+        "member-adopts-the-manager-configuration": "ind.timeframe_fill == hex_fill and ind.candles_lifespan == hex_life",
+        "member-without-timeframe-shares-the-default-manager": "ind2._candles is m0",
+    },
+    result_type="None", props=["C08"], use_at_calls=False)
+HEX_TASKS[H + "_validate_indicators"] = dict(builder=validate_builder, contract=VALIDATE)
